@@ -6,6 +6,18 @@ ALL = ["C%02d" % i for i in range(1, 21)]
 
 # property id -> dict(category, text, note, technique, design_ref)
 CLAIMED = {
+    "C01": dict(
+        category="other",
+        text="Path and structure rules that are necessary conditions of reply ownership: close-before-escape on every ordinary-exception exit after sendall, noreply <=> no read coupled with the wire token at all 17 call sites, one reply per command in order, no receive state outside locals, only Client touches sockets. Parsing under all segmentations is C03; a misbehaving server is not decided.",
+        note="Trusted: CPython ast; path interpreter; wire-fragment evaluator; Client.close does not raise (decided by C06.R6).",
+        technique="must-pass-through on exception edges + abstract wire-fragment evaluation + who-may-call",
+    ),
+    "C10": dict(
+        category="proof",
+        text="The C01/C09 cleanup path rules with the ASYNC exception colour (BaseException raised at any call): every such exit after sendall passes Client.close and is not swallowed; every such exit of the pool bracket passes exactly one release/destroy; Client.close drops the socket even when interrupted. The handlers' shape is the whole property.",
+        note="Trusted: CPython ast; path interpreter (every call may raise ASYNC); release/destroy summarised as atomic for slot accounting.",
+        technique="must-pass-through analysis on exception edges (ASYNC colour)",
+    ),
     "C06": dict(
         category="other",
         text="Static typestate analysis of socket objects on every path of Client._connect/close for all 128 configurations and any number of resolved addresses, plus who-may-write and lazy-reconnect rules; decides the structural clauses (no leak, single socket, timeout order, TLS wrap, close idempotent) and not the behavioural 'next call works'.",
